@@ -10,7 +10,7 @@ use crate::tm::*;
 use proptest::prelude::*;
 use serde::{Deserialize, Serialize};
 use slotted_egraphs::*;
-use std::collections::{BTreeMap, BTreeSet, HashMap};
+use std::collections::{BTreeMap, HashMap};
 
 #[derive(Clone, Debug, PartialEq, Eq, Hash, Serialize, Deserialize)]
 pub struct RwCase {
